@@ -611,6 +611,7 @@ pub fn construct_default_raw(kind: Kind) -> Box<dyn Ind> {
 
 thread_local! {
     static LAST_PANIC: RefCell<Option<String>> = const { RefCell::new(None) };
+    static GUARD_DEPTH: std::cell::Cell<u32> = const { std::cell::Cell::new(0) };
 }
 
 /// Install a panic hook that stores the message + location in a thread-local instead of printing.
@@ -624,6 +625,10 @@ pub fn install_quiet_panic_hook() {
             "<non-string panic>".to_string()
         };
         let loc = info.location().map(|l| format!("{}:{}", l.file(), l.line())).unwrap_or_default();
+        if GUARD_DEPTH.with(|d| d.get()) == 0 {
+            // not inside a monitored client call: this is the harness itself failing - say so loudly
+            eprintln!("HARNESS PANIC: {} @ {}", msg, loc);
+        }
         LAST_PANIC.with(|p| *p.borrow_mut() = Some(format!("{} @ {}", msg, loc)));
     }));
 }
@@ -632,6 +637,14 @@ pub fn install_quiet_panic_hook() {
 pub struct Panicked(pub String);
 
 pub fn guarded<T>(f: impl FnOnce() -> T) -> Result<T, Panicked> {
+    struct Depth;
+    impl Drop for Depth {
+        fn drop(&mut self) {
+            GUARD_DEPTH.with(|d| d.set(d.get().saturating_sub(1)));
+        }
+    }
+    GUARD_DEPTH.with(|d| d.set(d.get() + 1));
+    let _depth = Depth;
     match catch_unwind(AssertUnwindSafe(f)) {
         Ok(v) => Ok(v),
         Err(_) => {
@@ -658,6 +671,8 @@ pub enum Op {
     Multiplier,
     Ser,
     SerDeSwap,
+    /// replace the instance by its clone and drop the original
+    CloneSwap,
 }
 
 impl Op {
@@ -675,6 +690,7 @@ impl Op {
             Op::Multiplier => json!({"op": "multiplier"}),
             Op::Ser => json!({"op": "ser"}),
             Op::SerDeSwap => json!({"op": "serde_swap"}),
+            Op::CloneSwap => json!({"op": "clone_swap"}),
         }
     }
     pub fn from_json(v: &Value) -> Option<Op> {
@@ -691,6 +707,7 @@ impl Op {
             "multiplier" => Op::Multiplier,
             "ser" => Op::Ser,
             "serde_swap" => Op::SerDeSwap,
+            "clone_swap" => Op::CloneSwap,
             _ => return None,
         })
     }
@@ -1042,6 +1059,24 @@ impl Inst {
         self.record(|| Op::SerDeSwap, || Res::Bytes(bytes.len()));
         Ok(())
     }
+    /// replace self by a clone of itself (the original is dropped)
+    pub fn clone_swap(&mut self) -> Result<(), Panicked> {
+        let mut c = self.try_clone()?;
+        std::mem::swap(&mut self.ind, &mut c.ind);
+        self.record(|| Op::CloneSwap, || Res::Unit);
+        Ok(())
+    }
+    /// Semantically transparent identity change (C05/C06 say outputs must not depend on it):
+    /// even `which` -> clone-and-replace, odd -> serialize/deserialize-and-replace.
+    pub fn perturb(&mut self, which: usize) -> Op {
+        if which % 2 == 0 {
+            let _ = self.clone_swap();
+            Op::CloneSwap
+        } else {
+            let _ = self.serde_swap();
+            Op::SerDeSwap
+        }
+    }
     /// apply a recorded op (used by replays and op-programs); Clone/Ser are executed and dropped
     pub fn apply(&mut self, op: &Op) -> Res {
         fn r<T>(x: Result<T, Panicked>, f: impl FnOnce(T) -> Res) -> Res {
@@ -1064,6 +1099,7 @@ impl Inst {
             Op::Multiplier => r(self.multiplier(), |p| p.map(Res::F).unwrap_or(Res::Unsupported)),
             Op::Ser => r(self.ser(), |b| Res::Bytes(b.len())),
             Op::SerDeSwap => r(self.serde_swap(), |_| Res::Unit),
+            Op::CloneSwap => r(self.clone_swap(), |_| Res::Unit),
         }
     }
     pub fn trace_json(&self) -> Value {
